@@ -39,6 +39,13 @@ type vTransport struct {
 	isClosed bool
 	closes   int
 
+	// probe is evaluated at every Write (before the bytes are recorded); results are kept in probes
+	probe  func() int
+	probes []int
+	// holdWrites > 0: that many Write calls block until release is closed (a peer that stops reading for a while)
+	holdWrites int
+	release    chan struct{}
+
 	// gates: input from offset gatePos[i] on is delivered only once gateWrites[i] Write calls have been seen
 	gatePos    []int
 	gateWrites []int
@@ -62,7 +69,7 @@ func (t *vTransport) gateLimit() int {
 }
 
 func vNewTransport(in []byte) *vTransport {
-	return &vTransport{in: in, closed: make(chan struct{}), wake: make(chan struct{}, 1)}
+	return &vTransport{in: in, closed: make(chan struct{}), wake: make(chan struct{}, 1), release: make(chan struct{})}
 }
 
 func (t *vTransport) Read(p []byte) (int, error) {
@@ -113,6 +120,17 @@ func (t *vTransport) Write(p []byte) (int, error) {
 	if t.writeBlock {
 		<-t.closed
 		return 0, vErrTransportClosed
+	}
+	if t.probe != nil {
+		t.probes = append(t.probes, t.probe())
+	}
+	if t.holdWrites > 0 {
+		t.holdWrites--
+		select {
+		case <-t.release:
+		case <-t.closed:
+			return 0, vErrTransportClosed
+		}
 	}
 	if t.writeErrAt > 0 && len(t.writes)+1 == t.writeErrAt {
 		t.writes = append(t.writes, len(t.out))
